@@ -4,7 +4,7 @@
 use crate::gs::*;
 use std::cell::Cell;
 
-pub const KINDS: &[&str] = &["extract-type", "inline-rule", "generic-abstract", "generic-group-pair", "split-choice", "socket-choice", "parens", "rename", "add-unused-rules", "reorder-rules", "extract-group"];
+pub const KINDS: &[&str] = &["extract-type", "inline-rule", "generic-abstract", "generic-group-pair", "split-choice", "socket-choice", "parens", "rename", "add-unused-rules", "reorder-rules", "extract-group", "inline-group"];
 
 fn fresh(g: &GS, base: &str) -> String {
   let mut i = 0;
@@ -372,6 +372,58 @@ pub fn apply(kind: &str, g: &GS, k: usize) -> Option<GS> {
       out.rules.extend(fixed);
       // the first rule's name may also be defined later (increments): fine
       Some(out)
+    }
+    "inline-group" => {
+      // a reference (as a group entry) to a non-generic, singly defined, non-recursive group rule
+      // ==> the rule's entry as an inline group
+      let cands: Vec<usize> = (0..g.rules.len())
+        .filter(|i| {
+          let r = &g.rules[*i];
+          match &r.body {
+            GBody::Group(e) => {
+              r.params.is_empty()
+                && !r.name.starts_with('$')
+                && g.rules.iter().filter(|x| x.name == r.name).count() == 1
+                && !mentions(&GType2::Array(GGroup { choices: vec![GChoice { entries: vec![e.clone()] }] }), &[r.name.clone()])
+            }
+            _ => false,
+          }
+        })
+        .collect();
+      if cands.is_empty() {
+        return None;
+      }
+      let ri = cands[k % cands.len()];
+      let (nm, e0) = match &g.rules[ri].body {
+        GBody::Group(e) => (g.rules[ri].name.clone(), e.clone()),
+        _ => return None,
+      };
+      let body = match &e0 {
+        GEntry::Inline { occ: None, group } => group.clone(),
+        other => GGroup { choices: vec![GChoice { entries: vec![other.clone()] }] },
+      };
+      let done = Cell::new(false);
+      {
+        let mut t2 = |_: &mut GType2| {};
+        let mut t1f = |_: &mut GType1| {};
+        let mut en = |e: &mut GEntry| {
+          if done.get() {
+            return;
+          }
+          if let GEntry::Name { occ, name, args } = e {
+            if *name == nm && args.is_empty() {
+              *e = GEntry::Inline { occ: occ.clone(), group: body.clone() };
+              done.set(true);
+            }
+          }
+        };
+        VisitMut { t2: &mut t2, t1: &mut t1f, entry: &mut en }.gs(&mut out);
+      }
+      if done.get() {
+        Some(out)
+      } else {
+        None
+      }
     }
     "extract-group" => {
       // an inline group entry without occurrence inside an array/map ==> reference to a fresh group rule
